@@ -53,6 +53,41 @@ def choose_alg(server: bool, n: int, i0: int, i1: int, i2: int, m: int, j0: int,
     return got == want
 
 
+class _KP:
+    def __init__(self, alg):
+        self.algorithm = alg
+        self.sig = alg
+
+    def set_sig_algorithm(self, alg):
+        self.sig = alg
+
+
+def host_key_choice(n: int, i0: int, i1: int, i2: int, m: int, j0: int, j1: int, j2: int) -> bool:
+    """choose_server_host_key: the host key that will sign the exchange is the
+    one for the first algorithm in the *client's* server_host_key_algs list
+    that the server has a key for (RFC 4253 7.1), signing with exactly that
+    algorithm; none in common -> no key (the caller fails the exchange)."""
+    peer = _list(n, i0, i1, i2)
+    have = _list(m, j0, j1, j2)
+    conn = C.SSHServerConnection.__new__(C.SSHServerConnection)
+    conn._server = True
+    conn._server_host_key = None
+    conn._server_host_keys = {}
+    for a in have:                       # insertion order = the server's own preference order
+        if a not in conn._server_host_keys:
+            conn._server_host_keys[a] = _KP(b'base-' + a if a == b'b2' else a)
+    want = None
+    for a in peer:
+        if a in conn._server_host_keys:
+            want = a
+            break
+    got = conn.choose_server_host_key(peer)
+    if want is None:
+        return got is False and conn._server_host_key is None
+    kp = conn._server_host_key
+    return got is True and kp is conn._server_host_keys[want] and kp.sig == want
+
+
 def negotiate(server: bool, e_cs: int, e_sc: int, m_cs: int, m_sc: int, c_cs: int, c_sc: int, ours: int) -> bool:
     """_process_kexinit: each of the six per-direction algorithms is chosen
     from the peer list *for that direction*; the received KEXINIT payload is
@@ -386,6 +421,11 @@ OBLIGATIONS = [
        shards=dict(server=[True, False], n=[0, 1, 2, 3], m=[0, 1, 2, 3]), timeout=500,
        functions=[C.SSHConnection._choose_alg],
        bounds='both lists of length <= 3 over a 4-name alphabet (duplicates allowed), both roles'),
+    Ob('host_key_choice', host_key_choice,
+       sym=dict(n=R(0, 3), i0=R(0, 3), i1=R(0, 3), i2=R(0, 3), m=R(0, 3), j0=R(0, 3), j1=R(0, 3), j2=R(0, 3)),
+       shards=dict(n=[0, 1, 2, 3], m=[0, 1, 2, 3]), timeout=300,
+       functions=[C.SSHServerConnection.choose_server_host_key],
+       bounds='client list and server key table of <= 3 entries over a 4-name alphabet (duplicates allowed); one key type serves an algorithm under another name (signature algorithm must be set)'),
     Ob('negotiate', negotiate,
        sym=dict(e_cs=R(0, 4), e_sc=R(0, 4), m_cs=R(0, 4), m_sc=R(0, 4), c_cs=R(0, 4), c_sc=R(0, 4), ours=R(0, 2)),
        shards=dict(server=[True, False], ours=[0, 1, 2], c_cs=[2], c_sc=[3]),
